@@ -213,7 +213,12 @@ func (fr *Frame) resolveTarget(sc *Scope, mt ModTarget) []resolvedTarget {
 			// obj(s): the whole backing object of s
 			b := fr.evalExpr(sc, e.Args[0])
 			if sl, ok := b.T.Underlying().(*types.Slice); ok {
-				return []resolvedTarget{{text: mt.Text, isRange: true, whole: true, obj: b.Obj(), lo: IntT(0), hi: IntT(0), elemT: sl.Elem()}}
+				// obj(p.f) with p == nil names nothing (the field of a nil pointer is never reached by code)
+				obj := b.Obj()
+				if g := fr.derefGuard(sc, e.Args[0]); g.S != "true" {
+					obj = Ite(g, obj, Nil)
+				}
+				return []resolvedTarget{{text: mt.Text, isRange: true, whole: true, obj: obj, lo: IntT(0), hi: IntT(0), elemT: sl.Elem()}}
 			}
 			if mp, ok := b.T.Underlying().(*types.Map); ok {
 				// the whole content of the map
@@ -231,6 +236,30 @@ func (fr *Frame) resolveTarget(sc *Scope, mt ModTarget) []resolvedTarget {
 	}
 	cfail("unsupported modifies target %s", mt.Text)
 	return nil
+}
+
+// derefGuard: every pointer dereferenced on the way to e (p in p.f, p.f.g …) is non-nil.
+func (fr *Frame) derefGuard(sc *Scope, e Expr) (g Term) {
+	g = True
+	defer func() {
+		if r := recover(); r != nil {
+			g = True
+		}
+	}()
+	switch x := e.(type) {
+	case *ESel:
+		inner := fr.derefGuard(sc, x.X)
+		base := fr.evalExpr(sc, x.X)
+		if base.K == KNormal && base.T != nil && !base.Nav {
+			if _, ok := base.T.Underlying().(*types.Pointer); ok {
+				return And(inner, Not(Eq(base.Term(), Nil)))
+			}
+		}
+		return inner
+	case *EIndex:
+		return fr.derefGuard(sc, x.X)
+	}
+	return True
 }
 
 func (fr *Frame) fieldTargets(sc *Scope, base Val, name, text string) []resolvedTarget {
